@@ -33,7 +33,8 @@ RULE = ('Per backend variant (file x {tc,mp,tms,reverse_tms,quadkey,arcgis} x li
         'v1, v2 - each built by the configuration loader from YAML) a Hypothesis state machine draws an address pool '
         'from the collision set (x,y in {0,1,126..129,255,256,999..1001,9999,10000,16383,16384,65535,65536,999999,'
         '1000000} within a factor-2 pyramid, level 0..22, swapped x/y, same x/y at other levels, neighbours across '
-        '128-bundle and decimal digit-group borders, dimension dicts differing in one value) and runs up to 30 of: '
+        '128-bundle and decimal digit-group borders, dimension dicts differing in one value or only in "/" vs "_" '
+        'inside a value) and runs up to 30 of: '
         'store_tile, store_tiles, load_tile, load_tiles (single level, optional None tiles), is_cached, remove_tile(s), '
         'load_tile_metadata, the tile-manager call sequence (bulk load miss -> is_cached -> store on the same Tile '
         'objects), cleanup, reopen. After EVERY operation every pool address is read back through load_tile, '
